@@ -577,6 +577,13 @@ static void file_cases(vt::Rng& r, const string& dir, bool quick) {
       } else
         save_file(p, "data");
     }
+    // every tree also holds, deterministically, a link to the sibling directory with the sentinel; every second one a FIFO
+    // and a dangling link as well
+    if (symlink(("../outside" + to_string(t)).c_str(), (root + "/lnk_out").c_str()) == 0) names.push_back("lnk_out");
+    if (t % 2 == 1) {
+      if (mkfifo((root + "/fifo1").c_str(), 0644) == 0) names.push_back("fifo1");
+      if (symlink("nowhere", (root + "/lnk_dangling").c_str()) == 0) names.push_back("lnk_dangling");
+    }
     vector<string> listed, sorted_l;
     string out = guarded([&] {
       for (auto& s : list_directory(root)) listed.push_back(s);
